@@ -58,7 +58,15 @@ def LIST(t):
     return f'rlist:{t}'
 
 
+BODYV = 'chunkv:cell'      # a cell given by its content, held in ONE constructor argument (a pair)
+
+
 def is_chunk(t):
+    return t.startswith('chunk:') or t.startswith('chunkv:')
+
+
+def is_split(t):
+    """a chunk-valued field that occupies two constructor arguments (bits, refs)"""
     return t.startswith('chunk:')
 
 
@@ -105,6 +113,8 @@ class Config:
             return f'List ({self.lean_ty(t[6:])})'
         if t.startswith('sem:'):
             return self.sem[t[4:]]['lean']
+        if t in getattr(self, 'extra_types', {}):
+            return self.extra_types[t]
         raise Untranslatable(f'no Lean type for {t}')
 
 
@@ -135,6 +145,8 @@ class Program:
 
     def fn(self, key):
         cls, name = key
+        if self.cfg.sigs[key].get('dispatch'):
+            return None
         d = self.cfg.classes.get(cls)
         if d is None:
             raise Untranslatable(f'class {cls} is not declared')
@@ -153,15 +165,35 @@ class Program:
             c = cur_cls if v.id == 'cls' else v.id
             if (c, f.attr) in self.cfg.sigs:
                 return [(c, f.attr)]
-        # a method call on an object: every declared class with that method (refined by type during translation)
-        hits = [k for k in self.cfg.sigs if k[1] == f.attr and self.cfg.sigs[k].get('self')]
+        # a method call on an object: the classes whose instances have the receiver's declared type (`self.<field>`), else every
+        # declared class with that method (refined by type during translation)
+        hits = [k for k in self.cfg.sigs if k[1] == f.attr and self.cfg.sigs[k].get('self') and k[0] in self.cfg.classes]
+        d = self.cfg.classes.get(cur_cls, {})
+        if isinstance(v, ast.Attribute) and isinstance(v.value, ast.Name) and v.value.id == 'self' and d.get('ctor') and \
+                str(d.get('repr', '')).startswith('sem:'):
+            ft = dict(self.cfg.sem[d['repr'][4:]]['ctors'][d['ctor']]).get(v.attr)
+            if ft is not None:
+                typed = [k for k in hits if self.cfg.classes[k[0]]['repr'] == ft]
+                if not typed and is_opt(ft):
+                    ft = opt_of(ft)
+                    typed = [k for k in hits if self.cfg.classes[k[0]]['repr'] == ft]
+                if len(typed) > 1:
+                    disp = (ft[4:], f.attr) if ft.startswith('sem:') else None
+                    return [disp] if disp in self.cfg.sigs else typed
+                return typed or None
         return hits or None
 
     def callees(self, key):
         out = set()
+        if self.cfg.sigs[key].get('dispatch'):
+            return {(c, key[1]) for _, c in self.cfg.sigs[key]['dispatch']}
 
         def walk(n):
             if isinstance(n, ast.Lambda):          # never translated (only accepted inside statically dead branches)
+                return
+            if isinstance(n, ast.expr) and ast.unparse(n) in self.cfg.opaque.get(key, {}):
+                return                             # a declared opaque expression
+            if isinstance(n, ast.FunctionDef) and n.name in self.cfg.opaque_defs.get(key, ()):
                 return
             if isinstance(n, ast.Call):
                 for k in self.resolve(key[0], n) or []:
@@ -248,6 +280,12 @@ class Program:
     def emit_def(self, key, group, standalone_pass=False):
         cfg = self.cfg
         sig = cfg.sigs[key]
+        if sig.get('dispatch'):
+            ctxp = ' '.join(f'({n} : {t})' for n, t in cfg.ctx[sig['mode']])
+            ctxa = ' '.join(n for n, _ in cfg.ctx[sig['mode']])
+            arms = '\n'.join(f'  | .{ctor} .. => {self.lean_name((c, key[1]))} {ctxa} self' for ctor, c in sig['dispatch'])
+            return (f'/-- `x.{key[1]}()` for an object x of one of the classes {[c for _, c in sig["dispatch"]]} -/\n'
+                    f'def {self.lean_name(key)} {ctxp} (self : {cfg.lean_ty(sig["params"][0][1])}) : {self.ret_lean(key)} :=\n  match self with\n{arms}\n')
         fn = self.fn(key)
         tr = Tr(self, key, fn, in_group=group)
         body = tr.translate()
@@ -386,7 +424,7 @@ class Tr(BTr):
         e, t = et
         if t == BOOL:
             return f'({e} = true)'
-        if t == BITS or is_list(t):
+        if t == BITS or t == 'refs' or is_list(t):
             return f'({e} ≠ [])'
         if t not in pybytes.NUMERIC and t != BYTES:
             raise Untranslatable(f'{t} value used as a condition')
@@ -542,7 +580,11 @@ class Tr(BTr):
         if is_list(want) and have == EMPTYLIST:
             return f'([] : {self.cfg.lean_ty(want)})'
         if is_chunk(want) and is_chunk(have):
+            if want.split(':')[1] == have.split(':')[1]:
+                return v
             raise Untranslatable(f'{what}: a {have} where a {want} is expected')
+        if is_chunk(want) and want.endswith(':cell') and have == REF:
+            return f'(view {v})'                  # a cell object held by its content
         if is_opt(want):
             if have == NONE:
                 return 'none'
@@ -683,7 +725,7 @@ class Tr(BTr):
             if fname not in given:
                 raise Untranslatable(f'{cls}(...): field {fname} is not given')
             x = given[fname]
-            parts += [f'{par(x)}.1', f'{par(x)}.2'] if is_chunk(ft) else [par(x)]
+            parts += [f'{par(x)}.1', f'{par(x)}.2'] if is_split(ft) else [par(x)]
         return f'({sem["lean"].split()[0]}.{ctor} {" ".join(parts)})'.replace(' )', ')'), rep
 
     def attr_call(self, e):
@@ -735,7 +777,7 @@ class Tr(BTr):
             x = self.coerce(self.expr(e.args[0]), bt[6:], 'append')
             return f'(Py.RL.push {base} {par(x)})', bt
         # instance methods of declared classes
-        ks = [k for k in cfg.sigs if k[1] == f.attr and cfg.sigs[k].get('self') and cfg.classes[k[0]]['repr'] == bt]
+        ks = [k for k in cfg.sigs if k[1] == f.attr and cfg.sigs[k].get('self') and k[0] in cfg.classes and cfg.classes[k[0]]['repr'] == bt]
         if ks:
             return self.method_call(ks, base, e)
         raise Untranslatable(f'call of .{f.attr} on a {bt}')
@@ -1004,7 +1046,7 @@ class Tr(BTr):
                 raise Untranslatable(f'truthiness of a {st}')
             fields, order, pats = {}, [], []
             for fname, ft in sem['ctors'][ctor]:
-                if is_chunk(ft):
+                if is_split(ft):
                     pats += [f'{base}_{fname}_b', f'{base}_{fname}_r']
                     fields[fname] = (f'({base}_{fname}_b, {base}_{fname}_r)', ft)
                 else:
@@ -1049,7 +1091,7 @@ class Tr(BTr):
                     continue
                 fields, order, pats = {}, [], []
                 for fname, ft in sem['ctors'][want]:
-                    if is_chunk(ft):
+                    if is_split(ft):
                         pats += [f'{n}_{fname}_b', f'{n}_{fname}_r']
                         fields[fname] = (f'({n}_{fname}_b, {n}_{fname}_r)', ft)
                     else:
@@ -1225,7 +1267,7 @@ class Tr(BTr):
         parts = []
         for fname in n['order']:
             v, ft = n['fields'][fname]
-            parts += [f'{par(v)}.1', f'{par(v)}.2'] if is_chunk(ft) else [par(v)]
+            parts += [f'{par(v)}.1', f'{par(v)}.2'] if is_split(ft) else [par(v)]
         return f'({self.cfg.sem[t[4:]]["lean"].split()[0]}.{n["ctor"]} {" ".join(parts)})'.replace(' )', ')')
 
     def ret_value(self, vt):
